@@ -188,4 +188,212 @@ example : PCMT_WF ⟨0x100000, some 0, Option.none, Option.none, Option.none,
   refine ⟨by simp, by simp [MODE_THROUGHPUT], _, rfl, ?_, by simp⟩
   simp [Frame.fresh, MODE_ALIGNMENT]
 
+/-! ### review additions (rev1-C04) -/
+
+/-- the packet layout with every frame in its declarative form (`PCM_pack_layout` is phrased with the
+    helper `slotBytes`; composing with `PCMFrame_pack_layout` removes it from the statement); the
+    data-header width is the one selected by bit 21 of the channel-specific word.
+    (`f.hdr.getD 0`: `PCM_WF` demands `f.hdr = some _`, the default is never used.) -/
+theorem PCM_pack_layout_spec (p : Packet) (n : Nat) (h : PCM_WF p n) :
+    p.pack = .ok (Spec.Ch11.pcmPacket p.channel_specific_word (p.minor_frames.map fun f =>
+      Spec.Ch11.pcmFrame (toSpec f.ipts) (decide ((p.channel_specific_word / MODE_ALIGNMENT) % 2 = 1))
+        (f.hdr.getD 0) f.data)) := by
+  have e : p.minor_frames.map slotBytes = p.minor_frames.map (fun f =>
+      Spec.Ch11.pcmFrame (toSpec f.ipts) (decide ((p.channel_specific_word / MODE_ALIGNMENT) % 2 = 1))
+        (f.hdr.getD 0) f.data) := by
+    apply List.map_congr_left
+    intro f hf
+    have h1 := packFrame_eq f (h.2.2 f hf).1
+    have h2 := PCMFrame_pack_layout f (h.2.2 f hf).1
+    rw [h1, (h.2.2 f hf).2.1] at h2
+    exact Except.ok.inj h2
+  rw [← e]
+  exact PCM_pack_layout p n h
+
+/-- `PCM_roundtrip` with the helper `PCM_decoded` unfolded: accepted; the decoded frame list IS the
+    encoder's (same frames, same order: time stamps, data headers, data bytes, no sync word / SFID);
+    the channel-specific word is the encoder's; the three codec options of the decoder are untouched
+    and the detected size is reset -/
+theorem PCM_roundtrip_fields (p t : Packet) (n : Nat) (h : PCM_WF p n) (ho : t.ipts_source = p.ipts_source)
+    (hs : t.assigned = some n) :
+    ∃ b, p.pack = .ok b ∧ (Packet.unpack t b false).2 = .ok () ∧
+      (Packet.unpack t b false).1.minor_frames = p.minor_frames ∧
+      (Packet.unpack t b false).1.channel_specific_word = p.channel_specific_word ∧
+      (Packet.unpack t b false).1.ipts_source = t.ipts_source ∧ (Packet.unpack t b false).1.assigned = t.assigned ∧
+      (Packet.unpack t b false).1.syncword = t.syncword ∧ (Packet.unpack t b false).1.detected = Option.none := by
+  obtain ⟨b, h1, h2, _⟩ := PCM_roundtrip p t n h ho hs
+  exact ⟨b, h1, by rw [h2], by rw [h2]; rfl, by rw [h2]; rfl, by rw [h2]; rfl, by rw [h2]; rfl, by rw [h2]; rfl,
+    by rw [h2]; rfl⟩
+
+/-- `PCM_append_accepted` for a builder created with ANY sync-word / size options (the encoder never
+    looks at them; only the decoder needs the frame size) -/
+theorem PCM_append_accepted_anyopts (src : Option Nat) (sw sz : Option Nat) (n csw : Nat) (fs : List Frame) (t : Packet)
+    (h : PCM_WF { Packet.fresh src sw sz with channel_specific_word := csw, minor_frames := fs } n)
+    (ho : t.ipts_source = src) (hs : t.assigned = some n) :
+    ∃ b, (fs.foldl Packet.append { Packet.fresh src sw sz with channel_specific_word := csw }).pack = .ok b ∧
+      (Packet.unpack t b false).2 = .ok () ∧ (Packet.unpack t b false).1.minor_frames = fs := by
+  have hfold : ∀ (fs : List Frame) (q : Packet), (fs.foldl Packet.append q) = { q with minor_frames := q.minor_frames ++ fs } := by
+    intro fs
+    induction fs with
+    | nil => intro q; simp
+    | cons f fs ih =>
+      intro q
+      simp only [List.foldl_cons]
+      rw [ih (q.append f)]
+      simp [Packet.append]
+  rw [hfold]
+  obtain ⟨b, h1, h2, _⟩ := PCM_roundtrip _ t n h (by simpa [Packet.fresh] using ho) hs
+  refine ⟨b, by simpa [Packet.fresh] using h1, by rw [h2], by rw [h2]; rfl⟩
+
+/-- joint witness for `PCMFrame_roundtrip` (`h`, `ht`, `hk`, `ha` together): 32-bit alignment, widest
+    data header, odd data, decoded into an object that held a sync word and other data -/
+example : let f : Frame := ⟨.ptp 7 8, false, some 0xFFFFFFFF, [1, 2, 3], 1, Option.none, Option.none⟩
+    let t : Frame := ⟨.ptp 0 1, false, some 5, [9], 1, some 0xFE6B2840, some 2⟩
+    Frame_WF f ∧ t.throughput = false ∧ sameKind t.ipts f.ipts ∧ t.alignment = f.alignment := by
+  simp [Frame_WF, Ipts_WF, hdrLen, sameKind]
+
+/-- joint witness for `PCM_roundtrip` (`h`, `ho`, `hs` together): two RTC-stamped 16-bit-aligned frames
+    of 3 data bytes (odd: each is followed by a fill byte), decoder in a non-trivial prior state;
+    the theorem instantiated -/
+example : ∃ b, (⟨0x7, some 0, Option.none, Option.none, Option.none,
+      [⟨.rtc 1, false, some 0xFFFF, [1, 2, 3], 0, Option.none, Option.none⟩,
+       ⟨.rtc 0xFFFFFFFFFFFF, false, some 0, [4, 5, 6], 0, Option.none, Option.none⟩]⟩ : Packet).pack = .ok b ∧
+    (Packet.unpack ⟨0x300000, some 0, some 3, some 44, some 5, [Frame.fresh Option.none true 1]⟩ b false).2 = .ok () ∧
+    (Packet.unpack ⟨0x300000, some 0, some 3, some 44, some 5, [Frame.fresh Option.none true 1]⟩ b false).1.minor_frames =
+      [⟨.rtc 1, false, some 0xFFFF, [1, 2, 3], 0, Option.none, Option.none⟩,
+       ⟨.rtc 0xFFFFFFFFFFFF, false, some 0, [4, 5, 6], 0, Option.none, Option.none⟩] := by
+  obtain ⟨b, h1, h2, h3, _⟩ := PCM_roundtrip_fields
+    (⟨0x7, some 0, Option.none, Option.none, Option.none,
+      [⟨.rtc 1, false, some 0xFFFF, [1, 2, 3], 0, Option.none, Option.none⟩,
+       ⟨.rtc 0xFFFFFFFFFFFF, false, some 0, [4, 5, 6], 0, Option.none, Option.none⟩]⟩ : Packet)
+    ⟨0x300000, some 0, some 3, some 44, some 5, [Frame.fresh Option.none true 1]⟩ 3
+    (by
+      refine ⟨by simp, by simp [MODE_THROUGHPUT], ?_⟩
+      intro f hf
+      simp only [List.mem_cons, List.mem_nil_iff, or_false] at hf
+      rcases hf with h | h <;> subst h <;>
+        simp [Frame_WF, Frame.fresh, Ipts_WF, hdrLen, MODE_ALIGNMENT, pcmProto, sameKind, TS_CH4])
+    rfl rfl
+  exact ⟨b, h1, h2, h3⟩
+
+/-- joint witness for `PCM_append_accepted` (`h` on the `fresh`-shaped packet, `ho`, `hs` together): the
+    theorem instantiated -/
+example : ∃ b, (([⟨.ptp 7 8, false, some 0xFFFFFFFF, [1, 2, 3], 1, Option.none, Option.none⟩,
+                  ⟨.ptp 7 9, false, some 1, [4, 5, 6], 1, Option.none, Option.none⟩] : List Frame).foldl Packet.append
+      { Packet.fresh (some 1) Option.none (some 3) with channel_specific_word := 0x200000 }).pack = .ok b ∧
+    (Packet.unpack (Packet.fresh (some 1) Option.none (some 3)) b false).2 = .ok () ∧
+    (Packet.unpack (Packet.fresh (some 1) Option.none (some 3)) b false).1.minor_frames =
+      [⟨.ptp 7 8, false, some 0xFFFFFFFF, [1, 2, 3], 1, Option.none, Option.none⟩,
+       ⟨.ptp 7 9, false, some 1, [4, 5, 6], 1, Option.none, Option.none⟩] :=
+  PCM_append_accepted (some 1) 3 0x200000 _ (Packet.fresh (some 1) Option.none (some 3))
+    (by
+      refine ⟨by simp, by simp [MODE_THROUGHPUT], ?_⟩
+      intro f hf
+      simp only [List.mem_cons, List.mem_nil_iff, or_false] at hf
+      rcases hf with h | h <;> subst h <;>
+        simp [Frame_WF, Frame.fresh, Ipts_WF, hdrLen, MODE_ALIGNMENT, pcmProto, sameKind, TS_CH4, Packet.fresh])
+    rfl rfl
+
+/-- outside `PCMT_WF` (why it demands an even number of data bytes): throughput mode has no length
+    field, so the fill byte `pack` appends after an odd frame comes back as data -/
+example : ∃ b, (⟨0x100000, some 0, Option.none, Option.none, Option.none,
+      [⟨.none, true, Option.none, [1, 2, 3], 0, Option.none, Option.none⟩]⟩ : Packet).pack = .ok b ∧
+    (Packet.unpack (Packet.fresh (some 0) Option.none Option.none) b false).1.minor_frames.map (·.data) = [[1, 2, 3, 0]] := by
+  refine ⟨_, rfl, ?_⟩
+  decide
+
+/-- outside `PCM_roundtrip` (why the decoder must be told the frame size, hypothesis `hs`): without a
+    size and without a sync word the decoder takes the whole payload as ONE frame — two frames of
+    2 data bytes come back as one frame of 14 -/
+example : ∃ b, (⟨0, some 0, Option.none, Option.none, Option.none,
+      [⟨.rtc 1, false, some 0, [1, 2], 0, Option.none, Option.none⟩,
+       ⟨.rtc 2, false, some 0, [3, 4], 0, Option.none, Option.none⟩]⟩ : Packet).pack = .ok b ∧
+    (Packet.unpack (Packet.fresh (some 0) Option.none Option.none) b false).1.minor_frames.map (·.data.length) = [14] := by
+  refine ⟨_, rfl, ?_⟩
+  decide
+
+/-- `PCMFrame_slot_even` is a statement about the helper `slotBytes`; this is the same fact about the
+    code's own `packFrame` (frame + fill byte), for EVERY frame it manages to encode — no `Frame_WF`,
+    sync word / SFID attributes and throughput frames included -/
+theorem PCMFrame_slot_even_model (f : Frame) (b : Bytes) (h : packFrame f = .ok b) : b.length % 2 = 0 := by
+  have hz : structPack PCM_pack_fmt1 [PCM_DATA_FRAME_FILL] = .ok [0] := rfl
+  unfold packFrame at h
+  cases hp : f.pack with
+  | error e => simp [hp] at h
+  | ok x =>
+    simp only [hp, hz] at h
+    by_cases hodd : x.length % 2 = 1
+    · simp [hodd] at h
+      subst h; simp; omega
+    · simp [hodd] at h
+      subst h; omega
+
+/-- the decoder as the class constructs it by default (NO frame size, no sync word): a packed-mode
+    packet holding ONE minor frame whose size needs no fill byte is decoded to exactly that frame, and
+    `minor_frame_size_bytes` reports its data size.  (`PCM_roundtrip` needs the size hint `hs`; with
+    several frames, or an odd frame, the hint-less decoder returns something else — examples above
+    and in notes/ch11.md.) -/
+theorem PCM_roundtrip_single_nohint (p t : Packet) (f : Frame) (n : Nat) (h : PCM_WF p n) (hone : p.minor_frames = [f])
+    (heven : (n + hdrLen ((p.channel_specific_word / MODE_ALIGNMENT) % 2)) % 2 = 0)
+    (ho : t.ipts_source = p.ipts_source) (hs : t.assigned = Option.none) (hsync : t.syncword = Option.none) :
+    ∃ b, p.pack = .ok b ∧ (Packet.unpack t b false).2 = .ok () ∧
+      (Packet.unpack t b false).1.minor_frames = [f] ∧
+      (Packet.unpack t b false).1.channel_specific_word = p.channel_specific_word ∧
+      (Packet.unpack t b false).1.mfsb = some (n : Int) := by
+  refine ⟨PCM_bytes p, PCM_pack_eq p n h, ?_⟩
+  have hgiven := PCM_unpack_bytes p { t with assigned := some n } n h ho rfl
+  obtain ⟨h1, h2, hf⟩ := h
+  have hcsw : structUnpackFrom PCM_unpack_fmt0 (PCM_bytes p) 0 = .ok [p.channel_specific_word] := by
+    simp only [PCM_bytes, structUnpackFrom, PCM_unpack_fmt0, Fmt.size, codesSize, Code.size, List.length_append,
+      encInt_length, unpackCodes, List.drop_zero, take_encInt_append]
+    rw [decInt_encInt4 _ _ (by omega)]
+    simp
+  have hthr : decide (p.channel_specific_word / MODE_THROUGHPUT % 2 = 1) = false := by simp [h2]
+  have hfw := hf f (by simp [hone])
+  generalize hal : p.channel_specific_word / MODE_ALIGNMENT % 2 = align at hf heven hgiven hfw
+  have hal2 : align < 2 := by omega
+  have hhl : (if align = ALIGN_16b then DATA_HEADER_LEN_16 else DATA_HEADER_LEN_32) = hdrLen align := by
+    have : align = 0 ∨ align = 1 := by omega
+    rcases this with h | h <;> subst h <;> rfl
+  have hlen : (PCM_bytes p).length = 4 + (n + 8 + hdrLen align) := by
+    simp only [PCM_bytes, hone, List.flatMap_cons, List.flatMap_nil, List.append_nil, List.length_append, encInt_length,
+      slotBytes_length, frameBytes_length f hfw.1.2.1, hfw.2.1, hfw.2.2.1]
+    omega
+  have hdet : detect t (PCM_bytes p) (hdrLen align) = .ok (n : Int) := by
+    simp only [detect, hsync, hlen, TS_LEN]
+    congr 1
+    omega
+  simp only [Packet.unpack, hcsw, hthr, hal, Bool.false_eq_true, if_false, hhl] at hgiven ⊢
+  simp only [hs, hdet]
+  revert hgiven
+  cases hd : decFrames (Frame.fresh t.ipts_source false align) false ((n : Int) + TS_LEN + hdrLen align).toNat (PCM_bytes p)
+      ((PCM_bytes p).length + 1) 4 with
+  | error e => simp [PCM_decoded]
+  | ok fs =>
+    intro hg
+    simp only [Prod.mk.injEq, and_true] at hg
+    have : fs = p.minor_frames := by
+      have := congrArg Packet.minor_frames hg
+      simpa [PCM_decoded] using this
+    simp [Packet.mfsb, this, hone]
+
+/-- joint witness for `PCM_roundtrip_single_nohint`, decoder = `PCMDataPacket()` as constructed -/
+example : ∃ b, (⟨0, some 0, Option.none, Option.none, Option.none,
+      [⟨.rtc 1, false, some 7, [1, 2, 3, 4], 0, Option.none, Option.none⟩]⟩ : Packet).pack = .ok b ∧
+    (Packet.unpack (Packet.fresh (some 0) Option.none Option.none) b false).2 = .ok () ∧
+    (Packet.unpack (Packet.fresh (some 0) Option.none Option.none) b false).1.minor_frames =
+      [⟨.rtc 1, false, some 7, [1, 2, 3, 4], 0, Option.none, Option.none⟩] := by
+  obtain ⟨b, h1, h2, h3, _⟩ := PCM_roundtrip_single_nohint
+    (⟨0, some 0, Option.none, Option.none, Option.none,
+      [⟨.rtc 1, false, some 7, [1, 2, 3, 4], 0, Option.none, Option.none⟩]⟩ : Packet)
+    (Packet.fresh (some 0) Option.none Option.none) _ 4
+    (by
+      refine ⟨by simp, by simp [MODE_THROUGHPUT], ?_⟩
+      intro f hf
+      simp only [List.mem_cons, List.mem_nil_iff, or_false] at hf
+      subst hf
+      simp [Frame_WF, Frame.fresh, Ipts_WF, hdrLen, MODE_ALIGNMENT, pcmProto, sameKind, TS_CH4])
+    rfl (by decide) rfl rfl rfl
+  exact ⟨b, h1, h2, h3⟩
+
 end Acra.Props.C04
